@@ -13,7 +13,7 @@ for d in sorted(os.listdir(SEEDED)):
 with open(os.path.join(SEEDED, "RESULTS.md"), "w", encoding="utf-8") as f:
     caught = sum(1 for m in rows if m["check"]["caught"])
     f.write(f"# Seeded changes and the checks that catch them\n\n{caught} of {len(rows)} caught by the quick tier of their own property's check "
-            "(m1, m2: round 1; m3, m4: round 2; m5, m6: round 3; m7: round 4; every change written by an independent sub-agent from the property text alone and "
+            "(m1, m2: round 1; m3, m4: round 2; m5, m6: round 3; m7: round 4; m8: round 5; every change written by an independent sub-agent from the property text alone and "
             "re-confirmed by tools/verify_seeded.py in a scratch worktree).\n\n"
             "| id | needs to manifest | tests with patch | demo without / with | quick check | failing clauses |\n|---|---|---|---|---|---|\n")
     for m in rows:
